@@ -30,12 +30,16 @@ type SkipCase struct {
 
 // SkipStep is one invocation or edit.
 type SkipStep struct {
-	Edit   string   `json:"edit,omitempty"` // file to rewrite with new content
+	Edit   string   `json:"edit,omitempty"`   // file to rewrite with new content
+	Revert bool     `json:"revert,omitempty"` // ... or with its very first content again
 	Flags  []string `json:"flags,omitempty"`
 	Nested bool     `json:"nested,omitempty"`
 	Via    string   `json:"via,omitempty"` // "": by name; "default": bare spok (task 0 is called default)
 	// Elsewhere: run from a directory outside the project with --spokfile <project>/spokfile
 	Elsewhere bool `json:"elsewhere,omitempty"`
+	// Style: "rel-dot" = from the project root with --spokfile ./spokfile; "rel-parent" = from the
+	// parent directory with --spokfile <project>/spokfile
+	Style string `json:"style,omitempty"`
 }
 
 var skipFiles = []string{"in.txt", "src/a.go", "src/b.go", "data.json"}
@@ -71,12 +75,17 @@ func genSkipBody(t *rapid.T) SkipCase {
 				c.Steps = append(c.Steps, SkipStep{Edit: rapid.SampledFrom(skipOutside).Draw(t, "ofile")})
 				continue
 			}
-			c.Steps = append(c.Steps, SkipStep{Edit: rapid.SampledFrom(skipFiles).Draw(t, "file")})
+			c.Steps = append(c.Steps, SkipStep{Edit: rapid.SampledFrom(skipFiles).Draw(t, "file"), Revert: rapid.IntRange(0, 2).Draw(t, "revert") == 0})
 			continue
 		}
 		st := SkipStep{Flags: rapid.SampledFrom(skipFlagSets).Draw(t, "flags"), Nested: rapid.IntRange(0, 2).Draw(t, "nested") == 0}
-		if rapid.IntRange(0, 4).Draw(t, "elsewhere") == 0 {
+		switch rapid.IntRange(0, 7).Draw(t, "elsewhere") {
+		case 0, 1:
 			st.Elsewhere, st.Nested = true, false
+		case 2:
+			st.Style, st.Nested = "rel-dot", false
+		case 3:
+			st.Style, st.Nested = "rel-parent", false
 		}
 		if useDefault {
 			st.Via = "default"
@@ -160,8 +169,32 @@ func execSkip(id string, s *ev.Shard, b *sandbox.Box, c SkipCase) *rp.Fail {
 	logPath := filepath.Join(b.Home, "run.log")
 	env := []string{"LOG=" + logPath}
 	size := c.NTasks + len(c.Deps) + 2*len(c.Steps)
-	// model: per task, were its inputs edited since its last run (nil: never ran)
-	dirty := make([]*bool, c.NTasks)
+	// model: per task, the contents of the files it depends on as they were at its last run (nil: never ran)
+	content := map[string]string{}
+	for _, f := range skipFiles {
+		content[f] = "v0"
+	}
+	lastOn := make([]map[string]string, c.NTasks)
+	snapshot := func(i int) map[string]string {
+		m := map[string]string{}
+		for _, f := range skipFiles {
+			if skipMatches(c.FileDep[i], f) {
+				m[f] = content[f]
+			}
+		}
+		return m
+	}
+	same := func(a, b map[string]string) bool {
+		if len(a) != len(b) {
+			return false
+		}
+		for k, v := range a {
+			if b[k] != v {
+				return false
+			}
+		}
+		return true
+	}
 	closure := map[int]bool{}
 	var visit func(int)
 	visit = func(i int) {
@@ -181,14 +214,16 @@ func execSkip(id string, s *ev.Shard, b *sandbox.Box, c SkipCase) *rp.Fail {
 	for si, st := range c.Steps {
 		if st.Edit != "" {
 			version++
-			if err := sandbox.Write(b.Proj, st.Edit, fmt.Sprintf("v%d", version)); err != nil {
+			text := fmt.Sprintf("v%d", version)
+			if st.Revert {
+				text = "v0"
+			}
+			if err := sandbox.Write(b.Proj, st.Edit, text); err != nil {
 				return &rp.Fail{Sig: "harness", Msg: err.Error()}
 			}
 			_ = b.Own()
-			for i := 0; i < c.NTasks; i++ {
-				if dirty[i] != nil && skipMatches(c.FileDep[i], st.Edit) {
-					*dirty[i] = true
-				}
+			if !strings.HasPrefix(st.Edit, "../") {
+				content[st.Edit] = text
 			}
 			continue
 		}
@@ -202,6 +237,13 @@ func execSkip(id string, s *ev.Shard, b *sandbox.Box, c SkipCase) *rp.Fail {
 			cwd = filepath.Join(b.Home, "elsewhere")
 			args = append(args, "--spokfile", filepath.Join(b.Proj, "spokfile"))
 		}
+		switch st.Style {
+		case "rel-dot":
+			args = append(args, "--spokfile", "./spokfile")
+		case "rel-parent":
+			cwd = b.Home
+			args = append(args, "--spokfile", filepath.Base(b.Proj)+"/spokfile")
+		}
 		if st.Via != "default" {
 			args = append(args, c.name(0))
 		}
@@ -213,20 +255,19 @@ func execSkip(id string, s *ev.Shard, b *sandbox.Box, c SkipCase) *rp.Fail {
 		}
 		for i := range closure {
 			ran := contains(log, fmt.Sprintf("ran%d", i))
-			mustRun := c.FileDep[i] == "" || dirty[i] == nil || *dirty[i]
+			mustRun := c.FileDep[i] == "" || lastOn[i] == nil || !same(lastOn[i], snapshot(i))
 			switch {
 			case mustRun && !ran && id != "C02":
 				why := "it has no file dependency"
 				if c.FileDep[i] != "" {
-					why = "a file it depends on was edited since its last run (or it never ran)"
+					why = fmt.Sprintf("the files it depends on (now %v) differ from those of its last run (%v; nil = it never ran)", snapshot(i), lastOn[i])
 				}
 				return &rp.Fail{Sig: "wrong-skip", Size: size, Msg: fmt.Sprintf("%s: task %s did not run although %s", desc, c.name(i), why)}
 			case !mustRun && ran && id != "C01":
 				return &rp.Fail{Sig: "needless-rerun", Size: size, Msg: fmt.Sprintf("%s: task %s ran again although none of its dependency files changed since its last successful run", desc, c.name(i))}
 			}
 			if ran {
-				f := false
-				dirty[i] = &f
+				lastOn[i] = snapshot(i)
 				sawRerun = true
 			} else {
 				sawSkip = true
